@@ -6,6 +6,9 @@
 //!        [4, i]   participant i finishes (winds down and drops what it holds)
 //!        [5]      the coordinator starts waiting for completion, holding the lock as endpoint/src/main.rs does
 //!        [6]      observe after settling                                        -> [6, observed mask, closed mask, completion done]
+//!        [7, ch]  a real session (0 tunnel, 1 ping, 2 speedtest) starts on an idle client connection; it is participant
+//!                 number <next index> and registers by itself                  -> [7, index]
+//!        [8, i]   the client of session i goes away: the session ends
 //! out: one token per op ([n] for ops without a result); [995] = the script hung (a lock is held for ever)
 use crate::util::*;
 use std::sync::atomic::{AtomicBool, AtomicU64, Ordering};
@@ -13,6 +16,7 @@ use std::sync::{Arc, Mutex};
 use std::time::Duration;
 use trusttunnel::shutdown::Shutdown;
 use trusttunnel::verif::shutdown::{register, Participant};
+use trusttunnel::verif::session;
 
 pub fn run(toks: Vec<Tok>) -> Vec<Tok> {
     let (tx, rx) = std::sync::mpsc::channel();
@@ -29,7 +33,10 @@ fn run_inner(toks: Vec<Tok>) -> Vec<Tok> {
     let workers = toks[0][0].max(1) as usize;
     let rt = tokio::runtime::Builder::new_multi_thread().worker_threads(workers).enable_all().build().unwrap();
     let out = rt.block_on(async move {
-        let shutdown = Shutdown::new();
+        // the endpoint context owns the Shutdown the sessions register with
+        let ctx = crate::ctxutil::simple_ctx(&crate::ctxutil::Opts { allow_private: true, ipv6_available: true }, None);
+        let shutdown: Arc<std::sync::Mutex<Shutdown>> = trusttunnel::verif::ctx::shutdown(&ctx);
+        let mut clients: Vec<Option<tokio::io::DuplexStream>> = vec![];
         let observed = Arc::new(AtomicU64::new(0));
         let closed = Arc::new(AtomicU64::new(0));
         let done = Arc::new(AtomicBool::new(false));
@@ -116,6 +123,35 @@ fn run_inner(toks: Vec<Tok>) -> Vec<Tok> {
                     });
                     settle().await;
                     out.push(vec![5]);
+                }
+                7 => {
+                    let (client, server) = tokio::io::duplex(1 << 16);
+                    let ctx2 = ctx.clone();
+                    let channel = match op[1] {
+                        1 => session::Channel::Ping,
+                        2 => session::Channel::Speedtest,
+                        _ => session::Channel::Tunnel,
+                    };
+                    tokio::spawn(async move {
+                        let _ = session::run(&ctx2, channel, false, server, "198.51.100.7:40000".parse().unwrap(), "localhost".into(), None).await;
+                    });
+                    idle.push(None);
+                    waiting.push(None);
+                    while clients.len() < idle.len() {
+                        clients.push(None);
+                    }
+                    let i = idle.len() - 1;
+                    clients[i] = Some(client);
+                    settle().await;
+                    out.push(vec![7, i as u128]);
+                }
+                8 => {
+                    let i = op[1] as usize;
+                    if let Some(c) = clients.get_mut(i) {
+                        *c = None;
+                    }
+                    tokio::time::sleep(Duration::from_millis(60)).await;
+                    out.push(vec![8]);
                 }
                 _ => {
                     tokio::time::sleep(Duration::from_millis(40)).await;
